@@ -1,1 +1,249 @@
-//! verification hooks used by the check of property C03
+//! verification hooks used by the checks of the quantity properties (C03, C04, C05, C11, C12, C21, C01)
+//!
+//! Units and quantities are crate-private, so they cross the boundary as plain descriptions:
+//! a unit is a list of factors `(unit name, prefix, exponent)`, a quantity a bit pattern plus a unit.
+
+use crate::Context;
+use crate::arithmetic::{Exponent, Power, Rational};
+use crate::number::Number;
+use crate::prefix::Prefix;
+use crate::quantity::{Quantity, QuantityError, QuantityOrdering};
+use crate::unit::{Unit, UnitFactor};
+use crate::value::Value;
+
+#[derive(Debug, Clone, PartialEq)]
+pub struct FactorDesc {
+    /// name of the unit (not an alias)
+    pub unit: String,
+    pub binary: bool,
+    pub prefix_exp: i32,
+    pub num: i128,
+    pub den: i128,
+}
+
+#[derive(Debug, Clone, PartialEq)]
+pub struct QDesc {
+    pub bits: u64,
+    pub factors: Vec<FactorDesc>,
+    pub can_simplify: bool,
+    /// conversion target (`6 hours -> 45 min`), if any
+    pub target: Option<Box<QDesc>>,
+}
+
+#[derive(Debug, Clone)]
+pub struct UnitRow {
+    pub name: String,
+    pub aliases: Vec<String>,
+    pub canonical_name: String,
+    pub canonical_short: bool,
+    pub canonical_long: bool,
+    pub is_base: bool,
+    pub metric_prefixes: bool,
+    pub binary_prefixes: bool,
+    pub is_abbreviation: bool,
+    /// bit pattern of the conversion factor to the defining unit (1.0 for base units)
+    pub factor_bits: u64,
+    /// the defining unit exactly as stored (not canonicalized); empty for base units
+    pub definition: Vec<FactorDesc>,
+}
+
+fn describe_factor(f: &UnitFactor) -> FactorDesc {
+    let (binary, prefix_exp) = match f.prefix {
+        Prefix::Metric(e) => (false, e),
+        Prefix::Binary(e) => (true, e),
+    };
+    FactorDesc {
+        unit: f.unit_id.name.to_string(),
+        binary,
+        prefix_exp,
+        num: *f.exponent.numer(),
+        den: *f.exponent.denom(),
+    }
+}
+
+pub fn describe_unit(u: &Unit) -> Vec<FactorDesc> {
+    u.iter().map(describe_factor).collect()
+}
+
+pub fn describe_quantity(q: &Quantity) -> QDesc {
+    QDesc {
+        bits: q.unsafe_value().to_f64().to_bits(),
+        factors: describe_unit(q.unit()),
+        can_simplify: q.can_simplify(),
+        target: q
+            .verif_conversion_target()
+            .map(|t| Box::new(describe_quantity(t))),
+    }
+}
+
+impl Context {
+    /// every unit of the session with its direct definition, sorted by name
+    pub fn verif_unit_table(&self) -> Vec<UnitRow> {
+        let mut rows: Vec<UnitRow> = self
+            .unit_representations()
+            .filter_map(|(name, (_, md))| {
+                let unit = self.interpreter.get_defining_unit(&name)?;
+                let factor = unit.iter().next()?;
+                let id = &factor.unit_id;
+                let crate::unit::BaseUnitAndFactor(defining_unit, conversion) = id.unit_and_factor();
+                Some(UnitRow {
+                    name: id.name.to_string(),
+                    aliases: md.aliases.iter().map(|(a, _)| a.to_string()).collect(),
+                    canonical_name: id.canonical_name.name.to_string(),
+                    canonical_short: id.canonical_name.accepts_prefix.short,
+                    canonical_long: id.canonical_name.accepts_prefix.long,
+                    is_base: id.is_base(),
+                    metric_prefixes: md.metric_prefixes,
+                    binary_prefixes: md.binary_prefixes,
+                    is_abbreviation: md.is_abbreviation,
+                    factor_bits: conversion.to_f64().to_bits(),
+                    definition: if id.is_base() {
+                        vec![]
+                    } else {
+                        describe_unit(&defining_unit)
+                    },
+                })
+            })
+            .collect();
+        rows.sort_by(|a, b| a.name.cmp(&b.name));
+        rows
+    }
+
+    fn verif_build_unit(&self, factors: &[FactorDesc]) -> Option<Unit> {
+        let mut unit = Unit::scalar();
+        for f in factors {
+            let base = self.interpreter.get_defining_unit(&f.unit)?.clone();
+            let prefix = if f.binary {
+                Prefix::Binary(f.prefix_exp)
+            } else {
+                Prefix::Metric(f.prefix_exp)
+            };
+            let exponent: Exponent = Rational::new(f.num, f.den);
+            unit = unit * base.with_prefix(prefix).power(exponent);
+        }
+        Some(unit)
+    }
+
+    fn verif_build_quantity(&self, q: &QDesc) -> Option<Quantity> {
+        let quantity = Quantity::new(
+            Number::from_f64(f64::from_bits(q.bits)),
+            self.verif_build_unit(&q.factors)?,
+        );
+        Some(if q.can_simplify {
+            quantity
+        } else {
+            quantity.no_simplify()
+        })
+    }
+
+    /// the raw, unsimplified quantity bound to a global variable
+    pub fn verif_raw_global_quantity(&self, name: &str) -> Option<QDesc> {
+        match self.interpreter.verif_raw_global(name)? {
+            Value::Quantity(q) => Some(describe_quantity(&q)),
+            _ => None,
+        }
+    }
+
+    /// One operation of `quantity.rs` / `unit.rs` on explicit operands. The answer is a
+    /// canonical line of text (floats as bit patterns).
+    pub fn verif_quantity_op(&self, op: &str, a: &QDesc, b: Option<&QDesc>) -> String {
+        let Some(qa) = self.verif_build_quantity(a) else {
+            return "bad-unit".into();
+        };
+        let qb = match b {
+            Some(b) => match self.verif_build_quantity(b) {
+                Some(q) => Some(q),
+                None => return "bad-unit".into(),
+            },
+            None => None,
+        };
+        let show = |q: &Quantity| show_quantity(&describe_quantity(q));
+        let show_result = |r: Result<Quantity, QuantityError>| match r {
+            Ok(q) => show(&q),
+            Err(QuantityError::IncompatibleUnits(..)) => "err incompatible".to_string(),
+            Err(QuantityError::NonRationalExponent) => "err nonrational".to_string(),
+        };
+        match (op, qb) {
+            ("id", _) => show(&qa),
+            ("neg", _) => show(&(-qa)),
+            ("baserep", _) => show(&qa.to_base_unit_representation()),
+            ("canon", _) => show(&Quantity::new(
+                *qa.unsafe_value(),
+                qa.unit().canonicalized(),
+            )),
+            ("simplify", _) => show(&qa.full_simplify()),
+            ("simplify_reg", _) => show(&self.interpreter.verif_simplify(&qa)),
+            ("convert", Some(qb)) => show_result(qa.convert_to(qb.unit())),
+            ("add", Some(qb)) => show_result(&qa + &qb),
+            ("sub", Some(qb)) => show_result(&qa - &qb),
+            ("mul", Some(qb)) => show(&(qa * qb)),
+            ("div", Some(qb)) => show(&(qa / qb)),
+            ("pow", Some(qb)) => match qa.checked_power(qb) {
+                Ok(Some(q)) => show(&q),
+                Ok(None) => "err divzero".to_string(),
+                Err(QuantityError::IncompatibleUnits(..)) => "err incompatible".to_string(),
+                Err(QuantityError::NonRationalExponent) => "err nonrational".to_string(),
+            },
+            ("eq", Some(qb)) => format!("bool {}", qa == qb),
+            ("cmp", Some(qb)) => match qa.partial_cmp_preserve_nan(&qb) {
+                QuantityOrdering::IncompatibleUnits => "err incompatible".to_string(),
+                QuantityOrdering::NanOperand => "nan".to_string(),
+                QuantityOrdering::Ok(std::cmp::Ordering::Less) => "lt".to_string(),
+                QuantityOrdering::Ok(std::cmp::Ordering::Equal) => "eq".to_string(),
+                QuantityOrdering::Ok(std::cmp::Ordering::Greater) => "gt".to_string(),
+            },
+            ("smaller", Some(qb)) => {
+                let u = qa.unit().smaller_unit(qb.unit());
+                show_unit(&describe_unit(u))
+            }
+            ("uniteq", Some(qb)) => format!("bool {}", qa.unit() == qb.unit()),
+            ("multiple", Some(qb)) => match crate::unit::is_multiple_of(qa.unit(), qb.unit()) {
+                Some(alpha) => format!("some {}/{}", alpha.numer(), alpha.denom()),
+                None => "none".to_string(),
+            },
+            _ => "bad-op".into(),
+        }
+    }
+
+    /// `Rational::from_f64` as used by `checked_power` (external crate num-rational)
+    pub fn verif_rational_from_f64(bits: u64) -> Option<(i128, i128)> {
+        use num_traits::FromPrimitive;
+        Rational::from_f64(f64::from_bits(bits)).map(|r| (*r.numer(), *r.denom()))
+    }
+
+    /// text of a unit as numbat displays it
+    pub fn verif_unit_text(&self, factors: &[FactorDesc]) -> Option<String> {
+        Some(self.verif_build_unit(factors)?.to_string())
+    }
+}
+
+pub fn show_unit(factors: &[FactorDesc]) -> String {
+    let parts: Vec<String> = factors
+        .iter()
+        .map(|f| {
+            format!(
+                "{}:{}{}:{}/{}",
+                f.unit,
+                if f.binary { "b" } else { "m" },
+                f.prefix_exp,
+                f.num,
+                f.den
+            )
+        })
+        .collect();
+    format!("[{}]", parts.join(","))
+}
+
+pub fn show_quantity(q: &QDesc) -> String {
+    let mut s = format!(
+        "q {:016x} {} {}",
+        q.bits,
+        show_unit(&q.factors),
+        if q.can_simplify { "s" } else { "n" }
+    );
+    if let Some(t) = &q.target {
+        s.push_str(" -> ");
+        s.push_str(&show_quantity(t));
+    }
+    s
+}
